@@ -50,6 +50,8 @@ func gen(e *vlib.Env) (gcw.Program, int) {
 		YieldP:    []float64{0, 0.3, 0.6}[r.Intn(3)],
 		YieldUs:   []int{0, 40, 150}[r.Intn(3)],
 	}
+	// Message.UUID is not an identity: a quarter of the programs use empty or equal UUIDs (see gcw.Program.UUIDs)
+	p.UUIDs = []string{"", "", "empty", "same"}[vlib.HashStr(e.ID())%4]
 	for i, n := 0, r.Range(1, 4); i < n; i++ {
 		t := 0
 		if !nested && r.Chance(0.3) {
